@@ -7,8 +7,8 @@
 (* lines are accepted and counted by the runner.                                            *)
 EXTENDS Plan, Json, IOUtils
 
-VARIABLES l, solved, verdicts
-vars == <<l, solved, verdicts>>
+VARIABLES l, solved, verdicts, expects
+vars == <<l, solved, verdicts, expects>>
 
 Trace == ndJsonDeserialize(IOEnv.TRACE)
 PROP == IF "VPROP" \in DOMAIN IOEnv THEN IOEnv.VPROP ELSE "ALL"
@@ -32,16 +32,47 @@ SolutionOK(sol) ==
   /\ Chk({"C05"}, "RrTimelineAgrees", RrTimelineAgrees(sol) = TRUE)
   /\ Chk({"C06"}, "TemporallyWellFormed", TemporallyWellFormed(sol) = TRUE)
 
-Init == l = 1 /\ solved = 0 /\ verdicts = 0
+\* C16: the value a generated program must give to one of its top-level variables ("expect" lines precede the problem)
+ExpectsFor(name) == {x \in expects : x.name = name}
+TopItem(sol, var) == (CHOOSE p \in SeqRange(sol.tops) : p[1] = var)[2]
+ExpectedValueOK(sol) ==
+  \A x \in ExpectsFor(sol.name) :
+     CASE x.kind = "arith" -> IREqv(ArithValue(sol, TopItem(sol, x.var)), IROf(x.value))
+       [] x.kind = "bool" -> BoolValue(sol, TopItem(sol, x.var)) = x.bvalue
+       [] OTHER -> TRUE
+\* C17: object variables. Names of the top-level instances denoted by a set of item ids
+NamesOf(sol, ids) == {p[1] : p \in {q \in SeqRange(sol.tops) : q[2] \in ids}}
+InitialDomain(sol, id) ==
+  LET it == Item(sol, id)
+  IN IF it.t = "v" THEN SeqRange(OvVar(sol, it.ev).vals) ELSE {id}
+ObjExpectOK(sol) ==
+  \A x \in {y \in ExpectsFor(sol.name) : y.kind = "obj"} :
+     LET v == TopItem(sol, x.var)
+     IN /\ Chk({"C17"}, "DomainAtDeclaration", NamesOf(sol, InitialDomain(sol, v)) \ {x.var} = SeqRange(x.dom0))
+        /\ Chk({"C17"}, "ChoiceRespectsConstraints",
+               /\ Cardinality(Domain(sol, v)) = 1
+               /\ (NamesOf(sol, Domain(sol, v)) \ {x.var}) \subseteq SeqRange(x.allowed))
+
+Init == l = 1 /\ solved = 0 /\ verdicts = 0 /\ expects = {}
 
 Next ==
   /\ l <= Len(Trace)
   /\ l' = l + 1
   /\ LET ev == Trace[l]
-     IN CASE ev.e = "verdict" -> verdicts' = verdicts + 1 /\ UNCHANGED solved
-          [] ev.e = "solution" -> SolutionOK(ev) /\ solved' = solved + 1 /\ UNCHANGED verdicts
-          [] ev.e \in {"done", "timeout", "wide", "error"} -> UNCHANGED <<solved, verdicts>>
-          [] ev.e = "abort" -> Chk({"C18", "C01", "C03", "C04", "C05", "C06"}, "NoAbort", FALSE) /\ UNCHANGED <<solved, verdicts>>
+     IN CASE ev.e = "expect" -> expects' = expects \cup {ev} /\ UNCHANGED <<solved, verdicts>>
+          [] ev.e = "verdict" ->
+               /\ Chk({"C16"}, "ValidProgramSolved",
+                      (\E x \in ExpectsFor(ev.name) : x.kind \in {"arith", "bool"}) => ev.verdict = "solved")
+               /\ Chk({"C17"}, "SolvableIffSomeInstanceFits",
+                      \A x \in {y \in ExpectsFor(ev.name) : y.kind = "obj"} : (x.sat = 1) = (ev.verdict = "solved"))
+               /\ verdicts' = verdicts + 1 /\ UNCHANGED <<solved, expects>>
+          [] ev.e = "solution" ->
+               /\ SolutionOK(ev)
+               /\ Chk({"C16", "C17"}, "ExpectedValue", ExpectedValueOK(ev) = TRUE)
+               /\ ObjExpectOK(ev)
+               /\ solved' = solved + 1 /\ UNCHANGED <<verdicts, expects>>
+          [] ev.e \in {"done", "timeout", "wide", "error"} -> UNCHANGED <<solved, verdicts, expects>>
+          [] ev.e = "abort" -> Chk({"C18", "C01", "C02", "C03", "C04", "C05", "C06", "C16", "C17"}, "NoAbort", FALSE) /\ UNCHANGED <<solved, verdicts, expects>>
 
 Spec == Init /\ [][Next]_vars
 
